@@ -7,6 +7,7 @@ import (
 	"strings"
 
 	"github.com/goccmack/gocc/verifx/internal/gram"
+	"github.com/goccmack/gocc/verifx/internal/model"
 	"github.com/goccmack/gocc/verifx/internal/run"
 )
 
@@ -178,7 +179,7 @@ func runC14(c *Ctx) error {
 	n := c.Pick(300, 6000)
 	c.Rule = "well-formed grammars (lexical + syntax part) mutated at the front-end token level (deletion, insertion of 1-4 tokens incl. illegal characters, substitution; one or two edits, biased to the starts of syntax alternatives) and by the listed semantic faults (reference renamed to an undefined production / regular definition, duplicated definition, alternative emptied); a mutant must make gocc exit non-zero when its token-type sequence is not a sentence of M-SPEC or when it carries a listed fault; mutants that are still well-formed are run but not judged; one evaluation = one gocc run; non-trivial = judged mutant (must-reject); distinct by mutated text"
 	c.Assumptions = []string{"M-SPEC = spec/gocc2.ebnf read by the harness's own reader, front-end token types as the scanner assigns them (the words error/empty scan as tokId)", "semantic faults are injected one at a time into otherwise well-formed grammars"}
-	spec, err := LoadMSpec()
+	spec, err := model.LoadMSpec(run.RepoDir)
 	if err != nil {
 		return err
 	}
